@@ -1,6 +1,50 @@
 package main
 
+import (
+	"fmt"
+	"os"
+	"strings"
+)
+
 // runMode dispatches the modes added after `codec`; returns false for an unknown mode.
 func runMode(mode string, rep *Report, replay string) bool {
+	switch mode {
+	case "script":
+		// debugging aid: harness script -replay <file> ; prints both sides line by line
+		lines, err := readReplay(replay)
+		if err != nil {
+			fmt.Fprintln(os.Stderr, err)
+			os.Exit(2)
+		}
+		lm := os.Getenv("SCRIPT_MODE")
+		if lm == "" {
+			lm = "store"
+		}
+		mk := newStoreImpl
+		if lm == "codec" {
+			mk = newCodecImpl
+		}
+		c := Case{Name: "script", Lines: lines}
+		g := runGo(mk, c)
+		l, err := runLean(lm, []Case{c})
+		if err != nil {
+			fmt.Fprintln(os.Stderr, err)
+			os.Exit(2)
+		}
+		for i := range lines {
+			mark := "  "
+			if g[i] != l[0][i] {
+				mark = "!!"
+			}
+			fmt.Fprintf(os.Stderr, "%s %s\n     impl : %s\n     model: %s\n", mark, lines[i], clip(g[i], 600), clip(l[0][i], 600))
+		}
+		return true
+	case "store":
+		runStore(rep, replay)
+		return true
+	}
+	if strings.HasPrefix(mode, "_") {
+		return false
+	}
 	return false
 }
